@@ -317,10 +317,39 @@ def rxn_graphs(rsmi):
     return _RXG[rsmi]
 
 
+def _py_h_dom(G):
+    """independent definition of the model's h_dom: every explicit H has hcount 0 and at most one heavy neighbour"""
+    for n, d in G.nodes(data=True):
+        if d.get("element") == "H":
+            if (d.get("hcount", 0) or 0) != 0:
+                return False
+            if sum(1 for m in G.neighbors(n) if G.nodes[m].get("element") != "H") > 1:
+                return False
+    return True
+
+
+def _py_its_ok(I):
+    """independent definition of the model's its_ok (domain of C10_gml_roundtrip)"""
+    for n, d in I.nodes(data=True):
+        t = d.get("typesGH")
+        if not t or len(t) != 2 or not isinstance(t[0][0], str) or t[0][0] != t[1][0] or not re.fullmatch(r"[A-Za-z*]+", t[0][0]):
+            return False
+        if "element" not in d or "charge" not in d or d["element"] != t[0][0] or d["charge"] != t[0][3]:
+            return False
+    for u, v, d in I.edges(data=True):
+        o = d.get("order")
+        if u == v or not isinstance(o, tuple) or len(o) != 2 or any(x not in (0, 1, 1.5, 2, 3) for x in o) or o == (0, 0):
+            return False
+        if "standard_order" not in d or d["standard_order"] != o[0] - o[1]:
+            return False
+    return True
+
+
 def _hx_obs(G, nodes, its):
     from synkit.Graph.Hyrogen._misc import h_to_explicit, h_to_implicit
     e = h_to_explicit(G, nodes, its)
-    return [gr_obs(e), gr_obs(h_to_implicit(e)), gr_obs(h_to_implicit(G))]
+    i0 = h_to_implicit(G)
+    return [[gr_obs(e), gr_obs(h_to_implicit(e)), gr_obs(i0)], _total_h(G), _total_h(e), _total_h(i0), _py_h_dom(G), True]
 
 
 def impl(case):
@@ -363,7 +392,7 @@ def impl(case):
             c = get_rc(I) if core else I
             r, p = its_decompose(c)
             text = its_to_gml(to_nx(case["its"]), core=core, reindex=reindex, explicit_hydrogen=eh)
-            out.append([gr_ord_obs(c), gr_ord_obs(r), gr_ord_obs(p), rec_obs(text_to_rec(text)), parsed_obs(text)])
+            out.append([[gr_ord_obs(c), gr_ord_obs(r), gr_ord_obs(p), rec_obs(text_to_rec(text)), parsed_obs(text)], _py_its_ok(c)])
         return out
     if k == "smart":
         from synkit.IO.chem_converter import smart_to_gml
@@ -391,13 +420,13 @@ def coq_case(case):
             return "run_extract %s" % clist([enc_str(l) for l in case["labels"]])
         if k == "hx":
             nodes = case["nodes"]
-            return "run_hx %s %s %s" % (enc_gr(case["g"]), copt(None if nodes is None else clist([cN(n) for n in nodes])),
+            return "run_hx2 %s %s %s" % (enc_gr(case["g"]), copt(None if nodes is None else clist([cN(n) for n in nodes])),
                                         cbool(case["its"]))
         if k == "mol":
             g = mol_graph(case["smiles"])
             if g is None:
                 return None
-            return "run_hx %s None false" % enc_gr(g)
+            return "run_hx2 %s None false" % enc_gr(g)
         if k == "parse":
             return "run_parse %s" % enc_rec(case["rec"])
         if k == "transform":
@@ -405,7 +434,7 @@ def coq_case(case):
                                                             cbool(a), cbool(b)) for a, b in case["cfgs"]])
         if k == "its":
             g = enc_gr(case["its"])
-            return "(let g := %s in %s)" % (g, clistL(["run_its g %s %s %s" % (cbool(a), cbool(b), cbool(c))
+            return "(let g := %s in %s)" % (g, clistL(["run_its2 g %s %s %s" % (cbool(a), cbool(b), cbool(c))
                                                         for a, b, c in case["cfgs"]]))
         if k == "smart":
             x = rxn_graphs(case["rsmi"])
@@ -726,6 +755,11 @@ def oracle(case):
     return []
 
 
+def _rec_of(k, o):
+    """the GML record inside one per-configuration observable"""
+    return o[0][-2] if k == "its" else o[-2]
+
+
 def nontrivial(case, obs):
     k = case["kind"]
     if k == "label":
@@ -742,7 +776,7 @@ def nontrivial(case, obs):
         return bool(case["L"]["edges"] or case["R"]["edges"])
     if k in ("its", "smart"):
         try:
-            return any(len(o[-2]) == 3 and any(sec[1] for sec in o[-2]) for o in obs)
+            return any(len(_rec_of(k, o)) == 3 and any(sec[1] for sec in _rec_of(k, o)) for o in obs)
         except Exception:
             return False
     return False
@@ -750,7 +784,7 @@ def nontrivial(case, obs):
 
 def distribution(cases, obss):
     d = {"graph_sizes": {}, "cfg_counts": {}, "mol_sources": {}, "centre_sizes": {}, "charged_labels": 0, "changed_charge_rules": 0,
-         "explicit_H_graphs": 0, "bare_H_graphs": 0}
+         "explicit_H_graphs": 0, "bare_H_graphs": 0, "its_ok_exports": {}, "h_dom": {}, "no_H_graphs_with_hcount": 0}
     for c, o in zip(cases, obss):
         k = c["kind"]
         g = c.get("g") or c.get("its")
@@ -765,8 +799,12 @@ def distribution(cases, obss):
             d["mol_sources"][c.get("src", "?")] = d["mol_sources"].get(c.get("src", "?"), 0) + 1
         if k == "label":
             d["charged_labels"] += sum(1 for x in c["charges"] if x)
+        if k in ("hx", "mol") and isinstance(o, list) and len(o) == 6:
+            d["h_dom"][str(bool(o[4]))] = d["h_dom"].get(str(bool(o[4])), 0) + 1
         if k == "hx":
             hs = [n for n, a in c["g"]["nodes"] if a.get("element") == "H"]
+            if not hs and any((a.get("hcount") or 0) > 0 for _, a in c["g"]["nodes"]):
+                d["no_H_graphs_with_hcount"] += 1
             if hs:
                 d["explicit_H_graphs"] += 1
                 nb = {n: 0 for n in hs}
@@ -781,7 +819,9 @@ def distribution(cases, obss):
         if k in ("its", "smart") and isinstance(o, list):
             try:
                 for oo in o:
-                    rec = oo[-2]
+                    rec = _rec_of(k, oo)
+                    if k == "its":
+                        d["its_ok_exports"][str(bool(oo[1]))] = d["its_ok_exports"].get(str(bool(oo[1])), 0) + 1
                     if len(rec) == 3:
                         ids = {e[1] for s in rec for e in s[1] if e[0] == 0}
                         b = str(min(len(ids), 12))
